@@ -267,7 +267,7 @@ Proof.
       unfold sum_sz in B3. simpl in B3.
       pose proof (cnt_ge_of_pget is_insel _ _ _ Hp eq_refl) as S1.
       pose proof (cnt_nonneg is_leftctx (prods s)) as LC0.
-      unfold sb in T2. rewrite L, Tk in T2. simpl in T2.
+      unfold sb in T2. rewrite ?L, ?Tk in T2. simpl in T2.
       destruct N as [N|[N|N]]; try lia; try congruence.
       destruct (cnt_pos_ex is_lefttok (prods s) G6 N) as (q & w & Hq & Hw).
       destruct w; try discriminate.
@@ -283,5 +283,5 @@ Proof.
       + congruence.
     - exfalso. exact (NR r eq_refl). }
   destruct EN as (l & Hi & NE). destruct (step c s l) as [[s1 z]|] eqn:E; [|congruence].
-  exists l, s1, z. split; [exact Hi|]. split; [reflexivity|]. eapply mu_decreases; eauto.
+  exists l, s1, z. split; [exact Hi|]. split; [exact E|]. eapply mu_decreases; eauto.
 Qed.
